@@ -274,3 +274,56 @@ V("C11", "line-handling-after-loop", "F", "R3", CAP, "    # Verify line handling
 V("C11", "mutex-dropped", "F", "R3", CAP, '    "--multi-line",\n    cls=MutexOption,\n    mutually_exclusive=_LINE_MUTEX,\n', '    "--multi-line",\n')
 V("C11", "terminator-not-checked", "F", "R4", R + "comment.py", "            if cls.MULTI_LINE.end in text:\n                raise CommentCreateError(\n                    f\"'{line}' contains a premature comment delimiter\"\n                )\n", "")
 V("C11", "only-one-exception-handled", "F", "R1", ANP, "    except MissingReuseInfoError:\n        out.write(\n            _(\n                \"Error: Generated comment header for '{path}' is missing\"", "    except KeyError:\n        out.write(\n            _(\n                \"Error: Generated comment header for '{path}' is missing\"")
+
+# ----------------------------------------------------------------- C07
+HDP = R + "header.py"
+V("C07", "postcondition-removed", "F", "R1", HDP, "        _LOGGER.debug(result)\n        raise MissingReuseInfoError()\n", "        _LOGGER.debug(result)\n")
+V("C07", "postcondition-on-rendered-only", "F", "R1", HDP, "    new_reuse_info = extract_reuse_info(result)", "    new_reuse_info = extract_reuse_info(rendered)")
+V("C07", "contributors-not-rendered", "F", "R2", HDP, "        contributor_lines=sorted(reuse_info.contributor_lines),\n", "")
+V("C07", "template-tag-typo", "F", "R2", R + "templates/default_template.jinja2", "SPDX-FileContributor: {{ contributor_line }}", "SPDX-FileContributors: {{ contributor_line }}")
+V("C07", "force-multi-from-single", "F", "R3", CAP, "            force_multi=multi_line,", "            force_multi=single_line,")
+V("C07", "replace-not-negated", "F", "R3", CAP, "            replace=not no_replace,", "            replace=no_replace,")
+V("C07", "style-dropped-on-new-header", "F", "R3", ANP,
+  "            output = add_new_header(\n                text,\n                reuse_info,\n                template=template,\n                template_is_commented=template_is_commented,\n                style=comment_style,",
+  "            output = add_new_header(\n                text,\n                reuse_info,\n                template=template,\n                template_is_commented=template_is_commented,")
+V("C07", "uncommentable-in-file", "F", "R4", CAP, "        if binary or is_uncommentable(path) or force_dot_license:", "        if binary or force_dot_license:")
+V("C07", "detected-style-beats-forced", "F", "R4", ANP,
+  "    comment_style: Optional[Type[CommentStyle]] = NAME_STYLE_MAP.get(\n        cast(str, style)\n    )\n    if comment_style is None:\n        comment_style = get_comment_style(path)",
+  "    comment_style: Optional[Type[CommentStyle]] = get_comment_style(path)\n    if comment_style is None:\n        comment_style = NAME_STYLE_MAP.get(cast(str, style))")
+V("C07", "style-without-forms", "F", "R5", R + "comment.py", '    SHORTHAND = "f90"\n\n    SINGLE_LINE = "!"', '    SHORTHAND = "f90"\n\n    SINGLE_LINE = ""')
+V("C07", "merge-flag-lost", "F", "R3", HDP,
+  "        force_multi=force_multi,\n        merge_copyrights=merge_copyrights,\n    )\n\n    return place_header(new_header, before, after, bool(header))",
+  "        force_multi=force_multi,\n    )\n\n    return place_header(new_header, before, after, bool(header))")
+V("C07", "single-preferred-even-if-forced", "F", "R3", R + "comment.py", "        if force_multi or not cls.can_handle_single():", "        if not cls.can_handle_single():")
+
+# ----------------------------------------------------------------- C08
+V("C08", "no-separator-after-new-header", "F", "R1", HDP, '        if not has_existing_header and not after.startswith("\\n"):\n            separator = "\\n"', '        if not has_existing_header and not after.startswith("\\n"):\n            separator = ""')
+V("C08", "before-not-rstripped", "F", "R1", HDP, '        new_text = f"{before.rstrip()}\\n\\n{new_text}"', '        new_text = f"{before}\\n\\n{new_text}"')
+V("C08", "after-dropped-when-existing", "F", "R1", HDP, "        new_text = f\"{new_text}{separator}{after}\"\n    return new_text", "        if not has_existing_header:\n            new_text = f\"{new_text}{separator}{after}\"\n    return new_text")
+V("C08", "write-lf-always", "F", "R2", ANP, 'with open(path, "w", encoding="utf-8", newline=line_ending) as fp:', 'with open(path, "w", encoding="utf-8", newline="\\n") as fp:')
+V("C08", "detect-after-normalise", "F", "R2", ANP,
+  "    line_ending = detect_line_endings(text)\n    # Normalise line endings.\n    text = text.replace(line_ending, \"\\n\")",
+  "    text = text.replace(\"\\r\\n\", \"\\n\")\n    line_ending = detect_line_endings(text)\n    # Normalise line endings.\n    text = text.replace(line_ending, \"\\n\")")
+V("C08", "universal-newlines-read", "F", "R2", ANP, 'with open(path, "r", encoding="utf-8", newline="") as fp:', 'with open(path, "r", encoding="utf-8") as fp:')
+V("C08", "cr-before-crlf", "F", "R2", EXP, 'line_endings = ["\\r\\n", "\\r", "\\n"]', 'line_endings = ["\\r", "\\r\\n", "\\n"]')
+V("C08", "partition-off-by-one", "F", "R4", HDP, "text[index + len(comment) + 1 :]", "text[index + len(comment) :]")
+V("C08", "bom-not-written-back", "F", "R5", ANP, "            fp.write(bom + output)", "            fp.write(output)")
+V("C08", "bom-handling-removed", "F", "R5", ANP, '    bom = ""\n    if text.startswith("\\ufeff"):\n        bom = "\\ufeff"\n        text = text[1:]\n', '    bom = ""\n')
+V("C08", "shebang-after-create", "F", "R3", HDP,
+  "    shebang = \"\"\n\n    if style.SHEBANGS:\n        for shebang_prefix in style.SHEBANGS:\n            if text.startswith(shebang_prefix):\n                shebang, text = _extract_shebang(shebang_prefix, text)\n                break\n\n    header = create_header(\n        reuse_info,\n        None,\n        template=template,\n        template_is_commented=template_is_commented,\n        style=style,\n        force_multi=force_multi,\n        merge_copyrights=merge_copyrights,\n    )\n",
+  "    shebang = \"\"\n\n    header = create_header(\n        reuse_info,\n        None,\n        template=template,\n        template_is_commented=template_is_commented,\n        style=style,\n        force_multi=force_multi,\n        merge_copyrights=merge_copyrights,\n    )\n\n    if style.SHEBANGS:\n        for shebang_prefix in style.SHEBANGS:\n            if text.startswith(shebang_prefix):\n                shebang, text = _extract_shebang(shebang_prefix, text)\n                break\n")
+
+# ----------------------------------------------------------------- C09
+INI = R + "__init__.py"
+V("C09", "existing-info-not-unioned", "F", "R1", HDP, "        reuse_info = existing_spdx | reuse_info\n", "")
+V("C09", "existing-copyrights-dropped-on-merge", "F", "R1", HDP,
+  "            spdx_copyrights = merge_copyright_lines(\n                reuse_info.copyright_lines.union(existing_spdx.copyright_lines),\n            )",
+  "            spdx_copyrights = merge_copyright_lines(\n                reuse_info.copyright_lines,\n            )")
+V("C09", "bad-existing-header-ignored", "F", "R1", HDP,
+  "            raise CommentCreateError(\n                \"existing header contains an erroneous SPDX expression\"\n            ) from err",
+  "            existing_spdx = ReuseInfo()")
+V("C09", "union-only-copyright", "F", "R2", INI, "            if isinstance(attr_val, set) and (other_val := getattr(value, key)):", "            if key == \"copyright_lines\" and (other_val := getattr(value, key)):")
+V("C09", "or-returns-self", "F", "R2", INI, "        return self.union(value)\n", "        return self\n")
+V("C09", "xor-as-or", "F", "R2", INI, "return bool(self.spdx_expressions) ^ bool(self.copyright_lines)", "return bool(self.spdx_expressions) or bool(self.copyright_lines)")
+V("C09", "skip-existing-after-write", "F", "R3", ANP, "    if skip_existing and contains_reuse_info(text):", "    if False and skip_existing and contains_reuse_info(text):")
+V("C09", "copy-unknown-field", "F", "R2", PRJ, "closest = closest.copy(copyright_lines=set())", "closest = closest.copy(copyright=set())")
